@@ -554,7 +554,19 @@ func (x *Exec) step(st *State) []*State {
 		// Close calls; run those that are intrinsics/no-ops, record others
 		for i := len(fr.Defers) - 1; i >= 0; i-- {
 			d := fr.Defers[i]
-			x.note(x.Assumed, "deferred call "+calleeName(d.Call)+" in "+funcKey(fr.Fn)+" treated as effect-free")
+			name := calleeName(d.Call)
+			// deferred library calls that have a single-outcome specification (mutex unlocks) take effect
+			if in, ok := intrinsics[name]; ok && strings.Contains(name, "sync.") {
+				args := d.Args
+				if d.Call.IsInvoke() {
+					args = append([]Val{d.Fn}, args...)
+				}
+				cc := &CallCtx{Common: d.Call, Args: args, Name: name, Site: "defer", Fr: fr, ResT: d.Call.Signature().Results()}
+				if outs := in(x, st, cc); len(outs) == 1 && outs[0].St == st {
+					continue
+				}
+			}
+			x.note(x.Assumed, "deferred call "+name+" in "+funcKey(fr.Fn)+" treated as effect-free")
 		}
 		fr.Defers = nil
 	case *ssa.Panic:
